@@ -60,7 +60,7 @@ func decodeBinHeader(v string) (s string, err error) {
 	var b []byte
 	if len(v)%4 == 0 {
 		// Input was padded, or padding was not necessary.
-		b, err = base64.RawStdEncoding.DecodeString(v)
+		b, err = base64.StdEncoding.DecodeString(v)
 	} else {
 		b, err = base64.RawStdEncoding.DecodeString(v)
 	}
